@@ -61,8 +61,11 @@ def direct_trace(rng, n_epochs=3, max_len=12):
 # ---- engine-level ---------------------------------------------------------------------
 
 def logp(s):
-    return (-0.5 * jnp.sum(s["x"] ** 2) - 0.5 * jnp.sum((s["y"] - 1.0) ** 2) / 4.0
-            - 0.5 * jnp.sum((s["z"] - 2.0) ** 2))
+    lp = (-0.5 * jnp.sum(s["x"] ** 2) - 0.5 * jnp.sum((s["y"] - 1.0) ** 2) / 4.0
+          - 0.5 * jnp.sum((s["z"] - 2.0) ** 2))
+    if "g" in s:      # bounded support: the log-density is NaN for g <= 0 (Gamma(3, 1) written with jnp.log)
+        lp = lp + jnp.sum(2.0 * jnp.log(s["g"]) - s["g"])
+    return lp
 
 
 def asym_proposal_for(name):
@@ -82,6 +85,8 @@ def make_kernel(name, consts):
     kw = dict(da_target_accept=target, da_gamma=gamma, da_kappa=kappa, da_t0=t0)
     if name == "rw":
         return gs.RWKernel(["x"], initial_step_size=eps0, **kw), True, False
+    if name == "rw_support":    # random walk on a parameter with bounded support: proposals outside it have a NaN ratio
+        return gs.RWKernel(["g"], initial_step_size=max(eps0, 0.8), **kw), True, False
     if name == "iwls":
         return gs.IWLSKernel(["x"], initial_step_size=eps0, **kw), True, False
     if name == "mh_on":
@@ -101,6 +106,7 @@ SCHEDULES = [
     [(1, 4), (3, 3), (2, 6), (1, 2), (4, 4), (4, 2)],
     [(2, 5), (2, 5), (3, 5), (4, 5)],
     [(1, 3), (4, 6)],
+    [(1, 6), (2, 4), (3, 2), (4, 4)],      # common divisor 2: the adaptation epochs are sampled in several chunks
 ]
 
 
@@ -112,8 +118,11 @@ def engine_traces(names, consts, schedule, chains=2, seed=0, chunk_thin=1):
                         tun_fn=lambda ks: _tun4(ks)) for k, _, _ in inner]
     b = gs.EngineBuilder(seed=seed, num_chains=chains)
     b.set_model(gs.DictInterface(logp))
-    b.set_initial_values({"x": jnp.array([0.3, -0.2], jnp.float32), "y": jnp.array([1.5], jnp.float32),
-                          "z": jnp.array([2.5], jnp.float32)})
+    init = {"x": jnp.array([0.3, -0.2], jnp.float32), "y": jnp.array([1.5], jnp.float32),
+            "z": jnp.array([2.5], jnp.float32)}
+    if "rw_support" in names:
+        init["g"] = jnp.array([0.2], jnp.float32)
+    b.set_initial_values(init)
     for w in wraps:
         b.add_kernel(w)
     cfgs = [EpochConfig(EpochType.INITIAL_VALUES, 1, 1, None)] + [
